@@ -644,6 +644,18 @@ def run(mon, spec):
             # the calendar matters
             y = rng.choice((1900, 2100))
             m, d = rng.choice((1, 2, 2, 3)), rng.randrange(1, 29)
+        if k % 16 == 5:
+            # the days around 29 February, the last days of the months and
+            # of the year (sunrise or sunset falls on the neighbouring civil
+            # day for longitudes far from Greenwich)
+            y = rng.choice((1904, 2000, 2016, 2024, 2096, rng.randrange(
+                1900, 2101)))
+            m, d = rng.choice(((2, 28), (2, 29), (3, 1), (12, 31), (1, 1),
+                               (4, 30), (10, 31)))
+            if m == 2 and d == 29 and not (y % 4 == 0 and y != 1900
+                                           and y != 2100):
+                d = 28
+            lon = rng.choice((150.0, -150.0, 179.0, -179.0, lon))
         if k % 4 == 1:
             # an Epoch that carries a time of day: the answer is for its date
             d = d + rng.choice((0.25, 0.5, 0.75, 0.999, rng.random()))
